@@ -17,7 +17,7 @@ RULE = sqlmon.RULE_HISTORIES
 ASSUMPTIONS = sqlmon.COMMON_ASSUMPTIONS
 SHARDS = {'quick': 4, 'thorough': 16}
 TIMEOUT = {'quick': 900, 'thorough': 3600}
-FLOORS = {'commits_checked': 2000, 'sql_routine:jobs_after_update': 300, 'sql_routine:cancel_job_group': 10, 'sql_routine:commit_batch_update': 20,
+FLOORS = {'scripted_commits_of_a_cancelled_open_batch_through_the_route': 20, 'commits_checked': 2000, 'sql_routine:jobs_after_update': 300, 'sql_routine:cancel_job_group': 10, 'sql_routine:commit_batch_update': 20,
           'histories_free_of_known_patterns': 50, 'sql_routine:mark_job_complete': 50}
 
 
@@ -32,5 +32,88 @@ class C01(Monitor):
             self.r.violation(sqlmon.explain(self.p, key, [scope]), what, wit)
 
 
+async def scripted(runner, w, fz, rng):
+    """directed prefix: orders of {submit, cancel, commit} that an ordinary client can produce through the ROUTES on one batch
+    (1..3 parentless / chained jobs, some always-run, optionally a sub-group): cancel of the open batch then commit of update 1
+    (the commit route refuses), commit then cancel, cancel of a sub-group then cancel of the batch, a second update after a cancel.
+    The after-every-commit recount decides."""
+    from aiohttp import web
+    from batch.front_end.validate import validate_and_clean_jobs, validate_job_groups
+    from vf.world.http import FrontEnd
+    from vf.world.world import userdata
+
+    ctx = runner.ctx
+    user = 'alice'
+    ud = userdata(user)
+    fe = w.fe
+    if fz.http_fe is None:
+        fz.http_fe = FrontEnd(w)
+        for u in fz.cfg['users']:
+            fz.http_fe.auth_service.add('tok-' + u, userdata(u))
+    n = rng.choice([1, 2, 3])
+    sub = rng.random() < 0.4
+
+    def spec(i, **kw):
+        d = {'job_id': i, 'process': {'type': 'docker', 'command': ['true'], 'image': 'u'}, 'resources': {'cpu': rng.choice(['0.5', '1', '2']), 'memory': 'standard', 'storage': '1Gi'}}
+        d.update(kw)
+        return d
+    bid = await fe._create_batch({'billing_project': 'bp-a', 'token': 'c01s', 'n_jobs': n, 'n_job_groups': 1 if sub else 0}, ud, w.db)
+    fz.batches[bid] = {'user': user, 'token': 'c01s', 'groups': {0, 1} if sub else {0}, 'cancelled': set(), 'deleted': False}
+    u1, _, _ = await fe._create_batch_update(bid, 'c01s', n, 1 if sub else 0, user, w.db)
+    if sub:
+        gs = [{'job_group_id': 1, 'absolute_parent_id': 0}]
+        validate_job_groups(gs)
+        await fe._create_job_groups(w.db, bid, u1, user, gs)
+    js = []
+    for i in range(1, n + 1):
+        kw = {}
+        if i > 1 and rng.random() < 0.4:
+            kw['in_update_parent_ids'] = [i - 1]
+        if rng.random() < 0.25:
+            kw['always_run'] = True
+        if sub and rng.random() < 0.5:
+            kw['in_update_job_group_id'] = 1
+        js.append(spec(i, **kw))
+    validate_and_clean_jobs(js)
+    await fe._create_jobs(ud, js, bid, u1, w.fe_app)
+    order = rng.choice(['cancel-commit', 'cancel-commit', 'commit-cancel', 'cancel-commit-cancel'])
+
+    async def route_commit():
+        fz.commits_via_route.add((bid, u1))  # (known while the commit's own transaction is being judged)
+        resp = await fz.http_fe.request('PATCH', f'/api/v1alpha/batches/{bid}/updates/{u1}/commit', token='tok-' + user)
+        ctx.seen('scripted_commit_route_answers', f'{order}:{resp.status}')
+        if resp.status >= 400:
+            fz.commits_via_route.discard((bid, u1))
+        return resp.status
+
+    async def route_cancel():
+        resp = await fz.http_fe.request('PATCH', f'/api/v1alpha/batches/{bid}/cancel', token='tok-' + user)
+        if resp.status < 400:
+            fz.batches[bid]['cancelled'].add(0)
+        return resp.status
+    fz.current = 'commit'
+    for step in order.split('-'):
+        if step == 'cancel':
+            fz.current = 'cancel_batch'
+            await route_cancel()
+        else:
+            fz.current = 'commit'
+            await route_commit()
+    for p in fz.plans:
+        pass
+    ctx.count('scripted_route_orders')
+    if order.startswith('cancel-commit'):
+        ctx.count('scripted_commits_of_a_cancelled_open_batch_through_the_route')
+
+
 def run(ctx):
+    from vf.world.patterns import Patterns
+    from vf.world.run import HistoryRunner
+
+    p = Patterns()
+    r = HistoryRunner(ctx, [p, C01(p)], cfg={'weights': dict(sqlmon.WEIGHTS_RUN)}, n_ops=ctx.pick(10, 20), setup=scripted)
+    for i, rng in ctx.cases(ctx.pick(24, 120), 'scripted'):
+        res = r.run_case(i, rng)
+        ops = res.get('ops', [])
+        ctx.case(sample={'scripted-prefix+ops': ops[:30]}, key=('scripted', i, tuple(ops)), nontrivial=True)
     sqlmon.standard_run(ctx, lambda p: [C01(p)])
